@@ -34,7 +34,7 @@ func runModeNormal(procs *[]Process) (exitNum int) {
 
 			if ((*procs)[i].OperatorLogicAnd && (*procs)[prev].ExitNum != 0) ||
 				((*procs)[i].OperatorLogicOr && (*procs)[prev].ExitNum == 0) ||
-				(skipPipeline && ((*procs)[i].OperatorLogicAnd || (*procs)[i].OperatorLogicOr)) {
+				(skipPipeline && ((*procs)[i].OperatorLogicAnd || (*procs)[i].OperatorLogicOr || (*procs)[i].IsMethod)) {
 
 				(*procs)[i].hasTerminatedM.Lock()
 				(*procs)[i].hasTerminatedV = true
@@ -76,9 +76,9 @@ func runModeTry(procs *[]Process, tryErr bool) (exitNum int) {
 
 			if next < len(*procs) {
 				if exitNum < 1 && (*procs)[next].OperatorLogicOr {
-					// a skipped `||` alternative counts as succeeding: skip every
-					// following `||` alternative as well
-					for ; next < len(*procs) && (*procs)[next].OperatorLogicOr; next++ {
+					// a skipped `||` alternative counts as succeeding: skip the
+					// rest of its pipeline and every following `||` alternative
+					for ; next < len(*procs) && ((*procs)[next].OperatorLogicOr || (*procs)[next].IsMethod); next++ {
 						i = next
 						(*procs)[i].hasTerminatedM.Lock()
 						(*procs)[i].hasTerminatedV = true
@@ -129,9 +129,9 @@ func runModeTryPipe(procs *[]Process, tryPipeErr bool) (exitNum int) {
 		next := i + 1
 		if next < len(*procs) {
 			if exitNum < 1 && (*procs)[next].OperatorLogicOr {
-				// a skipped `||` alternative counts as succeeding: skip every
-				// following `||` alternative as well
-				for ; next < len(*procs) && (*procs)[next].OperatorLogicOr; next++ {
+				// a skipped `||` alternative counts as succeeding: skip the
+				// rest of its pipeline and every following `||` alternative
+				for ; next < len(*procs) && ((*procs)[next].OperatorLogicOr || (*procs)[next].IsMethod); next++ {
 					i = next
 					(*procs)[i].hasTerminatedM.Lock()
 					(*procs)[i].hasTerminatedV = true
